@@ -85,7 +85,11 @@ def _counter_info(ctx, f, counter, cmp_node):
         inits = []
         incs = []
         for n in U.walk_no_nested(f.node):
-            if isinstance(n, ast.Assign) and any(isinstance(t, ast.Name) and t.id == name for t in n.targets):
+            if isinstance(n, ast.AnnAssign) and n.value is not None and isinstance(n.target, ast.Name) and n.target.id == name:
+                n2 = ast.Assign(targets=[n.target], value=n.value)
+                ast.copy_location(n2, n)
+                inits.append(n2)
+            elif isinstance(n, ast.Assign) and any(isinstance(t, ast.Name) and t.id == name for t in n.targets):
                 inits.append(n)
             elif isinstance(n, ast.AugAssign) and isinstance(n.target, ast.Name) and n.target.id == name:
                 incs.append(n)
